@@ -496,6 +496,50 @@ def peep_special_cases(rep):
                                     "rules/frozen/c04_peep_special.json" % ", ".join(x[len("FOAM_BVal_"):] for x in new))
 
 
+def b13(rep):
+    """A big-integer constant travels as a sign byte and 16-bit places; the reader that rebuilds it is bintFrPlacevS, the dual of
+    the writer's bintToPlacevS, for every size.  A short cut `small ones through a machine word` must get the width right:
+    bintNew takes a *signed* long, so a magnitude assembled in 64 bits and cast to long is wrong for [2^63, 2^64) -- the folded
+    constant 9223372036854775808 is -9223372036854775808 under the interpreter only.  In the FOAM_BInt case of the interpreter's
+    evaluator the constant is produced by bintFrPlacevS and by nothing else."""
+    f = common.extract("fint.c", trees=["fintEval_"])
+    fn = f.func("fintEval_")
+    groups = None
+    for sw in common.walk(fn["body"]):
+        if sw["k"] != "SwitchStmt":
+            continue
+        try:
+            gs = common.switch_cases(sw)
+        except AnalysisBroken:
+            continue
+        if any(lab[0] == "FOAM_BInt" for g in gs for lab in g["labels"]):
+            groups = [g for g in gs if any(lab[0] == "FOAM_BInt" for lab in g["labels"])]
+            break
+    if not groups:
+        raise AnalysisBroken("fintEval_: no case FOAM_BInt")
+    g = groups[0]
+    makers = []
+    for st in g["stmts"]:
+        for x in common.walk(st):
+            if x["k"] == "BinaryOperator" and x["op"] == "=":
+                l = common.strip(x["c"][0])
+                if l is not None and l["k"] == "MemberExpr" and l["n"] == "fiBInt":
+                    cs = [y.get("callee") for y in common.walk(x["c"][1]) if y["k"] == "CallExpr"]
+                    makers.append((x, cs))
+    if not makers:
+        raise AnalysisBroken("fintEval_: the FOAM_BInt case stores no big integer")
+    for x, cs in makers:
+        key = "bint-constant-rebuilt-from-places@%d" % x["l"]
+        if "bintFrPlacevS" in cs and not any(c in ("bintNew", "bintFrString") for c in cs):
+            rep.ok("B13", key)
+        else:
+            rep.violation("B13", "bint-constant-rebuilt-from-places", "fint.c:%d (fintEval_, case FOAM_BInt)" % x["l"],
+                          "the interpreter builds a big-integer constant with %s instead of bintFrPlacevS: bintNew takes a signed "
+                          "machine word, so a constant whose magnitude needs the 64th bit (2^63 .. 2^64-1, e.g. the folded "
+                          "9223372036854775807 + 1) gets the wrong sign and value under the interpreter, while the executable and "
+                          "the unfolded program have the right one" % (", ".join(c for c in cs if c) or "no codec call"))
+
+
 def run(tier, only=None, library=False):
     rep = common.Report("C04", tier, EXPLANATION)
     f_foam = common.extract("foam.c")
@@ -894,6 +938,7 @@ def run(tier, only=None, library=False):
         if not sites:
             rep.ok("B7", "no-narrow-shift:" + unit, nontrivial=False)
     carry_steps(rep)
+    b13(rep)
     if not library:                 # an unconfirmed hand-written rewrite is C04's refusal, not its users'
         peep_special_cases(rep)
     from . import immed
